@@ -278,7 +278,36 @@ func nestedHistory(w *World, idx int) bool {
 				e["d"], e["td"] = d, -1
 				res = append(res, e)
 				// nested calls from the visiting goroutine
-				switch w.rng.Intn(6) {
+				switch w.rng.Intn(7) {
+				case 6:
+					// a second visit, started from inside this callback, whose own visitor
+					// mutates twice per item: two readers hold versions while versions
+					// come and go (both must still deliver the contents at their start)
+					pid2 := w.nextStore
+					w.nextStore++
+					w.emit(Ev{"e": "Snap", "s": main.ID, "s2": pid2, "pin": true, "io": w.ioOf(nil, false)})
+					res2 := []Ev{}
+					n2 := 0
+					err2 := c.VisitItemsAscendEx(w.lowTarget(name), true, func(j *gkvlite.Item, d2 uint64) bool {
+						e2 := w.itemEv(name, j)
+						e2["d"], e2["td"] = d2, -1
+						res2 = append(res2, e2)
+						n2++
+						if n2 <= 2 {
+							for k := 0; k < 2 && okAll; k++ {
+								val, _ := w.U.NewValue(w.rng, false, nil)
+								if w.rng.Intn(3) == 0 {
+									okAll = okAll && w.Del(main, name, r.anyKey(name), nil)
+								} else {
+									okAll = okAll && w.SetKV(main, name, r.anyKey(name), val, r.prio(), false, nil)
+								}
+							}
+						}
+						return okAll
+					})
+					w.emit(Ev{"e": "Visit", "s": pid2, "c": w.U.NameID(name), "dir": "asc", "api": "plain", "t": 0, "wv": true, "stop": 0,
+						"res": res2, "err": err2 != nil, "io": w.ioOf(nil, false)})
+					w.emit(Ev{"e": "Close", "s": pid2, "io": w.ioOf(nil, false)})
 				case 0:
 					okAll = okAll && w.Get(main, name, r.anyKey(name), w.rng.Intn(2) == 0, nil)
 				case 1:
